@@ -37,6 +37,10 @@ type serverConn struct {
 	closeOnce sync.Once
 	debug     Debugger
 
+	// Slot of the packet that was received last. See dispatch.go. Only touched by
+	// onParserFinish, which runs under parserMu.
+	dispatchTail *dispatchSlot
+
 	// Set by onClose, before the sockets of the connection are collected.
 	closed      atomic.Bool
 	closeReason atomic.Value
@@ -58,6 +62,7 @@ func newServerConn(
 		parser: creator(),
 		debug:  server.debug.WithContext("[sio/server] serverConn with engine.io ID: " + _eio.ID()),
 	}
+	c.dispatchTail = newCompletedDispatchSlot()
 
 	callbacks := &eio.Callbacks{
 		OnPacket: c.onEIOPacket,
@@ -96,16 +101,27 @@ func (c *serverConn) onEIOPacket(packets ...*eioparser.Packet) {
 }
 
 func (c *serverConn) onParserFinish(header *parser.PacketHeader, eventName string, decode parser.Decode) {
+	prev := c.dispatchTail
+	own := newDispatchSlot()
+	c.dispatchTail = own
 	go func() {
+		// Handlers are entered in the order the packets were received. See dispatch.go.
+		// `release` is called right before user code is entered, at the latest on return.
+		prev.wait()
+		release := sync.OnceFunc(func() { close(own.started) })
+		defer close(own.finished)
+		defer release()
+
 		if header.Namespace == "" {
 			header.Namespace = "/"
 		}
 		socket, ok := c.sockets.getByNsp(header.Namespace)
 
 		if header.Type == parser.PacketTypeConnect && !ok {
+			release() // Middlewares and connection handlers are user code.
 			c.connect(header, decode)
 		} else if ok && header.Type != parser.PacketTypeConnect && header.Type != parser.PacketTypeConnectError {
-			err := socket.onPacket(header, eventName, decode)
+			err := socket.onPacket(header, eventName, decode, release)
 			if err != nil {
 				c.onFatalError(err)
 			}
